@@ -130,7 +130,11 @@ def gen_donor(sess: Session, rng: random.Random, types: tuple, *, safe: bool, in
     t = rng.choice(types)
     if issubclass(t, models.RawTokenModel):
         if t is BlockComment:
-            return {'tok': 'BlockComment', 'v': docgen.block_comment_value(rng), 'indent': indent}
+            v = docgen.block_comment_value(rng)
+            if rng.random() < 0.35 and '\r' not in v:
+                # the other public constructor: from the comment's own text
+                return {'tok_raw': 'BlockComment', 'raw': '\n'.join(f'{indent}; {line}' if line else f'{indent};' for line in v.split('\n'))}
+            return {'tok': 'BlockComment', 'v': v, 'indent': indent}
         v = docgen.value_for(rng, t, safe)
         if v is None:
             return {'tok_default': t.__name__}
@@ -615,12 +619,22 @@ class Gen:
         if r0 < 0.07:
             # only plain repeated wrappers: deep copies of comment-interleaving wrappers are plain wrappers,
             # so no valid donor for a raw_*_with_comments property can be made through the public API
-            ws = self.wrappers(True, {'raw_repeated'})
+            # ... and comment-interleaving ones when the source holds no standalone comment (its copy is then a
+            # faithful plain wrapper); the views of entries (meta, postings, directives) hang on those
+            ws = self.wrappers(True, {'raw_repeated', 'raw_repeated_comments'})
             if ws:
                 ref, owner, m = rng.choice(ws)
                 srcs = [w for w in ws if w[2].name == m.name and w[2].types == m.types]
-                src = rng.choice(srcs)
-                return {'op': 'set_wrapper', 't': {'r': ref['r'], 'p': ref['p'][:-1]}, 'm': m.name, 'v': {'wrapper_copy': src[0]}}
+                if m.kind == 'raw_repeated_comments':
+                    def clean(w):
+                        try:
+                            return not any(isinstance(x, BlockComment) for x in self.s.resolve(w[0]))
+                        except Exception:
+                            return False
+                    srcs = [w for w in srcs if clean(w)]
+                if srcs:
+                    src = rng.choice(srcs)
+                    return {'op': 'set_wrapper', 't': {'r': ref['r'], 'p': ref['p'][:-1]}, 'm': m.name, 'v': {'wrapper_copy': src[0]}}
         if r0 < 0.5:
             return self.gen_seq(raw_only=True)
         if r0 < 0.58:
@@ -680,8 +694,13 @@ class Gen:
                     glued = False
                     for step, edge in ((st.get_prev, cur.first_token), (st.get_next, cur.last_token)):
                         t = step(edge)
-                        while t is not None and not t.raw_text:
-                            t = step(t)
+                        hops = 0
+                        while t is not None and not t.raw_text and hops < 10000:
+                            nxt = step(t)
+                            hops += 1
+                            if nxt is t:
+                                break
+                            t = nxt
                         if t is not None and type(t).__name__ not in ('Whitespace', 'Newline', 'Indent', 'BlockComment', 'InlineComment'):
                             glued = True
                     if glued:
